@@ -299,7 +299,7 @@ func main() {
 		return
 	}
 	r := gen.NewRand(f.Seed)
-	n := f.N(1500, 40000)
+	n := f.N(1500, 12000)
 	for i := 0; i < n; i++ {
 		wl := genWorkload(r, i%5 == 4)
 		run(wl, i, gen.Detail(map[string]any{"workload": wl}), fmt.Sprintf("workload %d", i))
